@@ -24,6 +24,7 @@ rounds = [
     (1, 'seeded', 'EVAL-round1.txt', 'EVAL-round1-on-head.txt'),
     (2, 'seeded2', 'EVAL-round2-before-improvements.txt', 'EVAL-round2-on-head.txt'),
     (3, 'seeded3', 'EVAL-round3-first-contact.txt', 'EVAL-round3-on-head.txt'),
+    (4, 'seeded4', 'EVAL-round4-first-contact.txt', 'EVAL-round4-on-head.txt'),
 ]
 rows, summary = [], []
 for rnd, d, first, after in rounds:
@@ -59,9 +60,15 @@ for rnd, d, first, after in rounds:
         rows.append(f'| {rnd} | {sid} | {summ} | {cls(fa)} | {ownrules} | {others} |')
     summary.append(f'| {rnd} | {len(b)} | {cf["own"]} / {cf["other"]} / {cf["missed"]} | {ch["own"]} / {ch["other"]} / {ch["missed"]} |')
 
-rf = parse_eval(f'{V}/refactorings/EVAL-first-contact.txt')
-alarmed = sorted(k for k, v in rf.items() if v not in ('NONE', 'n/a'))
-refac_first = f'{len(alarmed)} of {len(rf)} raised an alarm in some property ({", ".join(alarmed)})' if rf else 'not recorded'
+def refac_first(path):
+    rf = parse_eval(path)
+    alarmed = sorted(k for k, v in rf.items() if v not in ('NONE', 'n/a'))
+    return f'{len(alarmed)} of {len(rf)} raised an alarm in some property ({", ".join(alarmed)})' if rf else 'not recorded'
+refac_first1 = refac_first(f'{V}/refactorings/EVAL-first-contact.txt')
+refac_first2 = refac_first(f'{V}/refactorings/EVAL-round2-first-contact.txt')
+rh = parse_eval(f'{V}/refactorings/EVAL-on-head.txt')
+alarm_head = sorted(k for k, v in rh.items() if v not in ('NONE', 'n/a'))
+refac_head = (f'all {len(rh)} are silent for all 20 properties' if rh and not alarm_head else (f'{len(alarm_head)} of {len(rh)} still alarm: {", ".join(alarm_head)}' if rh else 'not recorded'))
 
 env = dict(os.environ, GOFLAGS='-mod=mod', GOPROXY='off', GOSUMDB='off', GOTOOLCHAIN='local')
 cat = subprocess.run([f'{V}/bin/errlint', '-dump', 'props'], capture_output=True, text=True, env=env).stdout
@@ -72,7 +79,7 @@ parts.append(open(f'{V}/design/part1_head.md').read().rstrip() + '\n\n')
 parts.append(cat.rstrip() + '\n\n')
 parts.append(open(f'{V}/design/part2.md').read().rstrip() + '\n\n')
 p4 = open(f'{V}/design/part4_seeds_head.md').read()
-p4 = p4.replace('@SUMMARY@', '\n'.join(summary)).replace('@TABLE@', '\n'.join(rows)).replace('@REFAC_FIRST@', refac_first)
+p4 = p4.replace('@SUMMARY@', '\n'.join(summary)).replace('@TABLE@', '\n'.join(rows)).replace('@REFAC_FIRST1@', refac_first1).replace('@REFAC_FIRST2@', refac_first2).replace('@REFAC_HEAD@', refac_head)
 parts.append(p4.rstrip() + '\n\n')
 parts.append(open(f'{V}/design/part3_falsealarms.md').read().rstrip() + '\n')
 open(f'{V}/DESIGN.md', 'w').write(''.join(parts))
